@@ -9,7 +9,7 @@ hooks_commits = subprocess.run("git -C /repo log --format=%h --grep='^verif hook
 m = {
  "version": 1,
  "setup_cmd": "./setup.sh",
- "hooks": {"guard": "verif", "enable": "go build -tags verif (hook call lines call package github.com/jirenius/go-res/verifhook, whose functions are empty without the tag; verif_export.go exports two unexported validators)",
+ "hooks": {"guard": "verif", "enable": "go build -tags verif (hook call lines call package github.com/jirenius/go-res/verifhook, whose functions are empty without the tag; verif_export.go exports two unexported validators and the reconnect/disconnect handlers the service installs on a nats.Conn)",
            "baseline_off_cmd": "cd /repo && go test -vet=off -count=1 ./...",
            "source_commits": hooks_commits, "add_only": True},
  "engines": [], "checks": [], "not_applicable": [],
